@@ -2,6 +2,10 @@ pub mod c01;
 pub mod c02;
 pub mod c03;
 pub mod c04;
+pub mod c05;
+pub mod c07;
+pub mod c08;
+pub mod c09;
 pub mod c11;
 pub mod c12;
 pub mod c13;
@@ -16,6 +20,10 @@ pub const ALL: &[&PropSpec] = &[
 	&c02::SPEC,
 	&c03::SPEC,
 	&c04::SPEC,
+	&c05::SPEC,
+	&c07::SPEC,
+	&c08::SPEC,
+	&c09::SPEC,
 	&c11::SPEC,
 	&c12::SPEC,
 	&c13::SPEC,
